@@ -103,6 +103,8 @@ pub struct SuccEntry {
     pub group: mls_rs::Group<Cfg>,
     pub welcomes: Vec<MlsMessage>,
     pub joined: Vec<mls_rs::Group<Cfg>>,
+    /// "none", or how the creator deviated from the announcement ("gid", "ext")
+    pub tweak: String,
 }
 
 #[derive(Default)]
